@@ -218,6 +218,9 @@ func (s *sched) After(p *process.Process, re *process.RuntimeEnvironment, what p
 func (s *sched) Event(p *process.Process, re *process.RuntimeEnvironment, kind process.SimEventKind, rule process.Rule, label string) {
 	s.mu.Lock()
 	defer s.mu.Unlock()
+	if s.freeRun {
+		return // leftovers released at the end of the run are no longer under the scheduler's control
+	}
 	t := s.tasks[p]
 	id := "?"
 	if t != nil {
@@ -680,6 +683,7 @@ func Run(t *testing.T, src string, cfg Config) *Result {
 			res.ProcessCount, res.DeadCount = re.ProcessCount(), re.DeadProcessCount()
 			_ = re.TimeTaken()
 			res.FakeNs = int64(time.Since(start))
+			s.log = canonicalLog(s.log)
 			h := sha256.Sum256([]byte(strings.Join(s.log, "\n")))
 			res.LogHash = hex.EncodeToString(h[:8])
 			if cfg.KeepLog {
@@ -688,6 +692,42 @@ func Run(t *testing.T, src string, cfg Config) *Result {
 		})
 	}()
 	return res
+}
+
+// canonicalLog makes the event log independent of the Go scheduler: within one
+// scheduler step the two tasks of a pair transition run concurrently for a few
+// instructions (each up to its after-hook), so the order of *their* lines is not
+// decided by the simulator. Lines between two "step" lines are stably grouped
+// by task id; the order of one task's own lines is kept.
+func canonicalLog(log []string) []string {
+	out := make([]string, 0, len(log))
+	flush := func(seg []string) {
+		sort.SliceStable(seg, func(i, j int) bool { return logTask(seg[i]) < logTask(seg[j]) })
+		out = append(out, seg...)
+	}
+	var seg []string
+	for _, l := range log {
+		if strings.HasPrefix(l, "step ") || strings.HasPrefix(l, "quiescent") || strings.Contains(l, "heartbeat expiry") {
+			flush(seg)
+			seg = nil
+			out = append(out, l)
+			continue
+		}
+		seg = append(seg, l)
+	}
+	flush(seg)
+	return out
+}
+
+func logTask(l string) string {
+	f := strings.Fields(l)
+	if len(f) >= 4 && f[0] == "spawn" {
+		return f[3] // "spawn <child> by <parent>": the parent's line
+	}
+	if len(f) >= 2 {
+		return f[1]
+	}
+	return ""
 }
 
 // PrintMultiset is the sorted list of printed labels.
